@@ -98,6 +98,8 @@ def _same(a, b):
     a, b = np.asarray(a), np.asarray(b)
     if a.shape != b.shape:
         return False
+    if a.dtype.kind == "O" or b.dtype.kind == "O":
+        return False  # an array of Python objects (e.g. unresolved lazy values) is never the numeric result
     if a.dtype.kind in "fc" or b.dtype.kind in "fc":
         return bool(np.allclose(a, b, equal_nan=True))
     return bool((a == b).all())
@@ -898,6 +900,17 @@ class rechunk_specs:
         import dask_array as da
         d = np.arange(int(np.prod(shape)), dtype="f8").reshape(shape)
         x = da.from_array(d, chunks=chunks)
+        kwargs = dict(kwargs)
+        pre = kwargs.pop("__pre__", None)
+        # the rechunk applied on top of a transpose / an elemwise op / another (balanced) rechunk: optimisation pushes it
+        # through, and the optimised collection must still have the requested chunks
+        if pre == "T" and len(shape) == 2:
+            x, d = x.T, d.T
+            shape = d.shape
+        elif pre == "plus":
+            x, d = x + 1, d + 1
+        elif pre == "rechunk-balanced":
+            x = x.rechunk(tuple(4 for _ in shape), balance=True)
         y = fn(x, spec, **kwargs)
         want = d
         z = y
@@ -907,7 +920,7 @@ class rechunk_specs:
             z, want = y.T, d.T
         elif post == "plus":
             z, want = y + 1, d + 1
-        return x.chunks, y.chunks, np.asarray(z.compute()), want
+        return x.chunks, y.chunks, np.asarray(z.compute()), want, y.optimize().chunks, tuple(int(n) for n in d.shape)
 
     def requires(shape, chunks, spec, kwargs, post):
         return True
@@ -915,8 +928,10 @@ class rechunk_specs:
     def ensures(result, shape, chunks, spec, kwargs, post):
         import numpy as np
         from dask_array._core_utils import normalize_chunks
-        old, new, got, want = result
+        old, new, got, want, optimized, shape = result
+        kwargs = {k: v for k, v in kwargs.items() if k != "__pre__"}
         r = {"values-unchanged": _same(got, want),
+             "optimized-collection-keeps-the-requested-chunks": chunks_equal(optimized, new),
              "valid-layout": all(len(ax) >= 1 and all(isinstance(c, int) and c >= 0 for c in ax) and sum(ax) == n
                                  for ax, n in zip(new, shape)) and len(new) == len(shape)}
         if not kwargs.get("balance"):
@@ -946,6 +961,16 @@ class rechunk_specs:
                     yield {"shape": shape, "chunks": ch, "spec": spec, "kwargs": {}, "post": post}
             yield {"shape": shape, "chunks": ch, "spec": 5 if len(shape) == 1 else (2, 4), "kwargs": {"balance": True}, "post": "none"}
             yield {"shape": shape, "chunks": ch, "spec": "auto", "kwargs": {"block_size_limit": 40}, "post": "none"}
+            for pre in ("T", "plus", "rechunk-balanced"):
+                sp = 5 if len(shape) == 1 else (4, 4)
+                yield {"shape": shape, "chunks": ch, "spec": sp, "kwargs": {"__pre__": pre}, "post": "none"}
+                yield {"shape": shape, "chunks": ch, "spec": sp, "kwargs": {"__pre__": pre, "balance": True}, "post": "none"}
+                yield {"shape": shape, "chunks": ch, "spec": 5 if len(shape) == 1 else (3, 5), "kwargs": {"__pre__": pre, "balance": True}, "post": "slice"}
+                yield {"shape": shape, "chunks": ch, "spec": "auto", "kwargs": {"__pre__": pre, "block_size_limit": 48}, "post": "none"}
+        for ch in [((3, 3, 3, 1), (3, 3, 3, 1)), ((2, 8), (5, 5))]:
+            for pre in ("T", "plus", "rechunk-balanced"):
+                yield {"shape": (10, 10), "chunks": ch, "spec": (4, 4), "kwargs": {"__pre__": pre, "balance": True}, "post": "none"}
+                yield {"shape": (10, 10), "chunks": ch, "spec": (3, 10), "kwargs": {"__pre__": pre}, "post": "none"}
 
 
 # ---------------------------------------------------------------------------
